@@ -63,3 +63,29 @@ Theorem C05_insertion_order : forall O ops1 ops2 k vs1 vs2,
   matching_versions O var_repaired (run O var_repaired ops1) k = matching_versions O var_repaired (run O var_repaired ops2) k.
 Proof. exact Properties.C12.C12_perm_repaired. Qed.
 Print Assumptions C05_insertion_order.
+
+(* Caches kept on a resolver (the PyPI resolver's parsed markers, parsed constraints and prerelease matches:
+   three instances of one LRU) do not change any answer: for a cache whose entries are answers of the cached
+   function, under any policy that only drops entries or adds the answer just computed, every cached call
+   returns what the function returns and the invariant is kept -- over any sequence of calls. *)
+From DepsDev Require Lib.Cache.
+Theorem C05_cache_sound : forall (K V : Type) (keq : K -> K -> bool), (forall a b, keq a b = true <-> a = b) ->
+  forall (f : K -> V) touch ins,
+  (forall c k, Lib.Cache.sub_step f c (touch c k) k) -> (forall c k, Lib.Cache.sub_step f c (ins c k (f k)) k) ->
+  forall ks c, Lib.Cache.Inv f c ->
+  fst (Lib.Cache.run_cached keq f touch ins c ks) = map f ks /\ Lib.Cache.Inv f (snd (Lib.Cache.run_cached keq f touch ins c ks)).
+Proof. intros K V keq Hk f touch ins Ht Hi ks c. exact (Lib.Cache.run_cached_sound keq Hk f touch ins Ht Hi ks c). Qed.
+Print Assumptions C05_cache_sound.
+
+(* The LRU of lru.go (modelled in Lib/Cache.v and run against the Go code on operation sequences) is such a
+   policy: Get-then-Add-on-miss returns the function's answers over any sequence of keys, for every capacity,
+   and the cache never grows beyond its capacity. *)
+Theorem C05_lru_sound : forall (K V : Type) (keq : K -> K -> bool), (forall a b, keq a b = true <-> a = b) ->
+  forall (f : K -> V) n ks c, Lib.Cache.Inv f c ->
+  fst (Lib.Cache.lru_run keq f n c ks) = map f ks /\ Lib.Cache.Inv f (snd (Lib.Cache.lru_run keq f n c ks)).
+Proof. intros K V keq Hk f n ks c. exact (Lib.Cache.lru_run_sound keq Hk f n ks c). Qed.
+Print Assumptions C05_lru_sound.
+
+Theorem C05_lru_bounded : forall (K V : Type) (keq : K -> K -> bool) n (c : list (K * V)) k v,
+  (0 < n)%nat -> (length c <= n)%nat -> (length (Lib.Cache.lru_add keq n c k v) <= n)%nat.
+Proof. intros K V keq n c k v. exact (Lib.Cache.lru_add_bounded keq n c k v). Qed.
